@@ -293,7 +293,9 @@ func (ex *Exec) finish(fnTags []string) []*Obligation {
 		if len(o.Tags) == 0 {
 			o.Tags = fnTags
 		}
-		if len(ex.cases) == 0 {
+		if len(ex.cases) == 0 || hasTag(o.Tags, "always") {
+			// tag "always": the clause is claimed (and assumed by callers) for every input, also inside the
+			// carved-out regions
 			out = append(out, o)
 			continue
 		}
